@@ -27,6 +27,8 @@ K1Body == Bin("add", Bin("mul", A, Ten), B)
 K1Forms == { Lit(K1Body),
              CtxF(<<En("t", Lit(Bin("mul", A, Ten)))>>, Lit(Bin("add", Nm("t"), B))) }
 K2Forms == { Lit(Bin("add", Call("k1", <<P, One>>), Hundred)),
+             \* the body names an input of the model that is not one of its parameters: invisible when invoked by name
+             Lit([n |-> "list", items |-> <<Call("k1", <<P, One>>), A, B>>]),
              CtxF(<<En("r", Inv("k1", <<Bd("a", Lit(P)), Bd("b", Lit(One))>>))>>, Lit(Bin("add", Nm("r"), Hundred))) }
 \* a decision table whose single rule returns an expression over the input
 TableD1 == [fam |-> "DRG", hp |-> "F", ins |-> <<[name |-> "a", ty |-> "number", allowed |-> [n |-> "none"], allowedtext |-> <<>>]>>,
